@@ -3,9 +3,23 @@
 //! (`F<TAB>property<TAB>json`).
 mod common;
 mod strings;
+mod suite_cmp;
+mod suite_axes;
 mod suite_entity;
+mod suite_ffixed;
 mod suite_fclone;
 mod suite_forest;
+mod suite_rt;
+mod idmap_hist;
+mod idmap_oracle;
+mod suite_idmap;
+mod ser_gen;
+mod ser_oracle;
+mod ser_ws;
+mod suite_ser;
+mod suite_fws;
+mod scope_oracle;
+mod suite_scope;
 mod suite_tree;
 mod tree;
 
@@ -26,7 +40,16 @@ fn main() {
     match suite {
         "entity" => suite_entity::run(seed, count, tier, &mut sink),
         "tree" => suite_tree::run(seed, count, tier, &mut sink),
+        "cmp" => suite_cmp::run(seed, count, tier, &mut sink),
         "forest" => suite_forest::run(seed, count, tier, &mut sink),
+        "rt" => suite_rt::run(seed, count, tier, &mut sink),
+        "exec-forest" => suite_forest::exec_stdin(&mut sink),
+        "idmap" => suite_idmap::run(seed, count, tier, &mut sink),
+        "axes" => suite_axes::run(seed, count, tier, &mut sink),
+        "ser" => suite_ser::run(seed, count, tier, &mut sink),
+        "fws" => suite_fws::run(seed, count, tier, &mut sink),
+        "scope" => suite_scope::run(seed, count, tier, &mut sink),
+        "ffixed" => suite_ffixed::run(seed, count, tier, &mut sink),
         "fclone" => suite_fclone::run(seed, count, tier, &mut sink),
         _ => {
             eprintln!("unknown suite {}", suite);
